@@ -30,7 +30,8 @@ sys.path.insert(0, str(VERIF / "translator"))
 # hand model.  Each module only concerns the named fragment, so a source change breaks the obligations of the
 # properties that depend on that fragment and of no other.
 EXTRA_MODULES = {
-    "C01": ["Tie.Plan"],
+    "C01": ["Tie.Plan", "Tie.SeekArith"],
+    "C02": ["Tie.SeekArith"],
     "C03": ["Tie.Bits"],
     "C04": ["Tie.Bits", "Tie.SigprocTables"],
     "C05": ["Tie.SigprocTables"],
